@@ -51,6 +51,14 @@ def gen(rng, n):
             argv.append('--home-fallback')
             if rng.random() < 0.6:
                 env_extra['TRASH_ENABLE_HOME_FALLBACK'] = rng.choice(['1', '1', '0', 'yes'])
+        if rng.random() < 0.15:
+            # half a skeleton: the trash directory has its info/ but no files/ (somebody removed it): whatever is missing is created
+            nodes.append(['d', lay.home_trash + '/info', 0o700])
+            for vv in lay.all_vols:
+                if lay.top[vv][1] == 'dir':
+                    nodes.append(['d', lay.top2(vv) + '/info', 0o700])
+        if not hf and rng.random() < 0.2:
+            env_extra['TRASH_ENABLE_HOME_FALLBACK'] = '1'       # the variable alone enables nothing: the option is needed as well
         td_opt = None
         if rng.random() < 0.12:
             td_opt = rng.choice([scen.Layout.j(v, 'mytrash'), lay.home + '/mytrash'])
